@@ -70,6 +70,11 @@ MUTANTS = [
     ("p1_place_by_element_number", "bempp_cl/api/space/scalar_spaces.py", "bary_elements = _np.arange(6) + 6 * index", "bary_elements = _np.arange(6) + 6 * elem_index", 0, ["C10"]),
     ("rwg_place_unscaled", "bempp_cl/api/space/maxwell_spaces.py", "dof_coeffs = bary_coeffs * outer_edges[local_dof] / dof_mult", "dof_coeffs = bary_coeffs / dof_mult", 0, ["C10"]),
     ("compat_partial_conversion", "bempp_cl/api/space/space.py", "converted = [space.barycentric_representation() for space in args]", "converted = [space.barycentric_representation() if space.is_barycentric else space for space in args]", 0, ["C10"]),
+    ("bary_p1_wrong_gradient", "bempp_cl/api/space/scalar_spaces.py", "        .set_numba_surface_gradient(_numba_p1_surface_gradient)\n        .build()\n    )\n\n\n@_numba.njit(cache=True)\ndef generate_p1_map", "        .set_numba_surface_gradient(_numba_p0_surface_gradient)\n        .build()\n    )\n\n\n@_numba.njit(cache=True)\ndef generate_p1_map", 0, ["C10"]),
+    ("bary_p0_tile_normals", "bempp_cl/api/space/scalar_spaces.py", "normal_multipliers = _np.repeat(coarse_space.normal_multipliers, 6)", "normal_multipliers = _np.tile(coarse_space.normal_multipliers, 6)", 0, ["C10"]),
+    ("dual0_without_normal_multipliers", "bempp_cl/api/space/scalar_dual_spaces.py", "        .set_normal_multipliers(_np.repeat(coarse_space.normal_multipliers, 6))\n        .set_order(0)\n", "        .set_order(0)\n", 0, ["C10"]),
+    ("bary_rwg_support_interleaved", "bempp_cl/api/space/maxwell_spaces.py", "    bary_support_elements = 6 * _np.repeat(coarse_space.support_elements, 6) + _np.tile(\n        _np.arange(6), number_of_support_elements\n    )", "    bary_support_elements = 6 * _np.tile(coarse_space.support_elements, 6) + _np.repeat(\n        _np.arange(6), number_of_support_elements\n    )", 0, ["C10"]),
+    ("multitrace_identity_drops_parameters", "bempp_cl/api/operators/boundary/sparse.py", "blocked_operator[1, 1] = identity(domain1, range1, dual_to_range1, parameters, device_interface, precision)", "blocked_operator[1, 1] = identity(domain1, range1, dual_to_range1)", 0, ["C18"]),
     ("bc_ref_cell_offset", "bempp_cl/api/space/maxwell_spaces.py", "bary_upper_plus = 6 * upper + 2 * local_vertex1 + 1", "bary_upper_plus = 6 * upper + 2 * local_vertex1 - 1", 0, ["C10"]),
     ("bc_ref_edge_local_dof", "bempp_cl/api/grid/grid.py", "bary_dofs.append(local2global[bary_upper_plus, 2])", "bary_dofs.append(local2global[bary_upper_plus, 1])", 0, ["C10"]),
     ("bc_ref_edge_sign", "bempp_cl/api/grid/grid.py", "    values.append(-1.0 / (2 * edge_length_lower))\n    values.append(1.0 / (2 * edge_length_lower))", "    values.append(1.0 / (2 * edge_length_lower))\n    values.append(1.0 / (2 * edge_length_lower))", 0, ["C10"]),
